@@ -38,10 +38,15 @@ fn for_(v: &str, a: i16, b: i16, z: Option<i16>) -> Stmt {
 
 /// Statement alphabet for a program whose lines are 10, 20, .., 10*k.
 pub fn alphabet(level: Level, k: usize) -> Vec<Stmt> {
-    let lines: Vec<u16> = (1..=k as u16).map(|i| i * 10).collect();
+    alphabet_at(level, k, 10)
+}
+
+/// Statement alphabet for a program whose lines are base, base+10, ..
+pub fn alphabet_at(level: Level, k: usize, base: u16) -> Vec<Stmt> {
+    let lines: Vec<u16> = (0..k as u16).map(|i| base + i * 10).collect();
     let first = lines[0];
     let last = *lines.last().unwrap();
-    let absent = (k as u16 + 1) * 10;
+    let absent = base + (k as u16) * 10;
     let mut a: Vec<Stmt> = vec![];
     let full = level == Level::Full;
     let med = level != Level::Core;
@@ -208,6 +213,14 @@ pub struct ProgSweep {
 }
 
 impl ProgSweep {
+    /// number of the first line: 0 for sweeps labelled "...-from-line-0"
+    fn base(&self) -> u16 {
+        if self.label.ends_with("-from-line-0") {
+            0
+        } else {
+            10
+        }
+    }
     fn masks(&self) -> u32 {
         1 << (self.n - 1)
     }
@@ -221,7 +234,7 @@ impl Sweep for ProgSweep {
         // (mask, index of first statement); alphabet size depends on the mask
         let mut total = 0;
         for m in 0..self.masks() {
-            total += alphabet(self.level, lines_of_mask(self.n, m)).len();
+            total += alphabet_at(self.level, lines_of_mask(self.n, m), self.base()).len();
         }
         total
     }
@@ -233,7 +246,7 @@ impl Sweep for ProgSweep {
         let mut mask = 0;
         let mut alpha = vec![];
         for m in 0..self.masks() {
-            alpha = alphabet(self.level, lines_of_mask(self.n, m));
+            alpha = alphabet_at(self.level, lines_of_mask(self.n, m), self.base());
             if rest < alpha.len() {
                 mask = m;
                 break;
@@ -250,7 +263,7 @@ impl Sweep for ProgSweep {
                 stmts[pos] = alpha[x % a].clone();
                 x /= a;
             }
-            if let Some(mut p) = compose(&stmts, mask, 10, 10) {
+            if let Some(mut p) = compose(&stmts, mask, self.base(), 10) {
                 assign_markers(&mut p);
                 (self.judge)(&p, ctx);
                 if ctx.done() {
